@@ -17,7 +17,14 @@ import (
 	"bngvc/smt"
 )
 
-const verifDir = "/verif"
+// verifDir holds known_findings.json, spec/, evidence/, replays/ and the solver cache.
+// BNGVC_VERIF_DIR redirects it (private runs that must not write into /verif).
+var verifDir = func() string {
+	if d := os.Getenv("BNGVC_VERIF_DIR"); d != "" {
+		return d
+	}
+	return "/verif"
+}()
 
 // Finding is one entry of /verif/known_findings.json.
 type Finding struct {
